@@ -6,3 +6,8 @@ open Dashu.Props.C15
 #print axioms unsigned_div_ubig_fits
 #print axioms signed_div_ibig_counterexample
 #print axioms ibig_ring_forms_agree
+#print axioms ibig_divrem_is_div_and_rem
+#print axioms ibig_divrem_euclid_is_div_and_rem
+#print axioms ubig_ibig_forms_agree
+#print axioms signed_div_ibig_fits
+#print axioms unsigned_div_negative_ibig_counterexample
